@@ -480,6 +480,14 @@ def level0_deck(seed, n_cells=4, n_surfs=5, with_tr=True, with_macro=True, with_
             d.materials[mat] = MATS[mat]
     if use_imp_card:
         d.imp_card = imps
+        if rng.random() < 0.5:
+            # MCNP does not require increasing cell numbers: the cards may come in any order, and the entries of an IMP
+            # data card go with the cards by position in the cell block, not by cell number
+            order = list(d.cells)
+            rng.shuffle(order)
+            by_id = dict(zip(d.cells, imps))
+            d.cells = {k: d.cells[k] for k in order}
+            d.imp_card = [by_id[k] for k in order]
     return d
 
 
@@ -800,7 +808,7 @@ def hex_deck(seed):
 
 # ------------------------------------------------------------------ directed decks
 
-N_DIRECTED = 9
+N_DIRECTED = 10
 
 
 def directed_deck(k):
@@ -842,6 +850,13 @@ def directed_deck(k):
         d.add_cell(Cell(50, 2, '-1.0', ('s', -4), imp=0, universe=5))
         d.add_cell(Cell(51, 4, '0.05', ('s', 4), imp=2, universe=5))
         d.materials.update({1: MATS[1], 2: MATS[2], 4: MATS[4]})
+        return d
+    if k == 9:      # cell cards not in increasing order, importances on an IMP data card (assigned by position)
+        d.add_cell(Cell(10, 1, '-2.70', ('s', -1), imp=1, imp_on_card=False))
+        d.add_cell(Cell(30, 0, None, ('s', 2), imp=0, imp_on_card=False))
+        d.add_cell(Cell(20, 2, '-1.0', ('*', ('s', 1), ('s', -2)), imp=2, imp_on_card=False))
+        d.imp_card = [1, 0, 2]
+        d.materials.update({1: MATS[1], 2: MATS[2]})
         return d
     if k == 8:      # the zero-importance outside world has the highest cell number, with a gap that the numbers
         # generated for auxiliary volumes (unions, complements) fall into
